@@ -38,7 +38,18 @@ RE_FINAL = re.compile(r"^rf@\d+\.\d{3}\.h5$")
 
 
 def budget(tier):
-    return {"examples": 10 if tier == "quick" else 40, "shards": 1 if tier == "quick" else 16}
+    return {"examples": 10 if tier == "quick" else 40, "shards": 1 if tier == "quick" else 16,
+            "examples2": 200 if tier == "quick" else 100}
+
+
+# second stage: "a file under a final name ... its bytes never change again" and "a reader opened on the tree succeeds" also when
+# LATER recording sessions run on the same channel (restarts, collisions with finalized periods)
+SESSION_KEEP = ("finalized-file-changed", "finalized-file-disappeared", "union-read-exception")
+
+
+def strategy2(tier):
+    from checks import c11
+    return c11.session_strategy(tier)
 
 
 @st.composite
@@ -215,6 +226,9 @@ class PointJudge:
 
 
 def run_case(case):
+    if case.get("kind") == "sessions":
+        from checks import c11
+        return c11.run_sessions(case, SESSION_KEEP)
     res = Result()
     seen = set()
 
@@ -369,6 +383,10 @@ class _SpanModel:
 
 
 def shrink_candidates(case):
+    if case.get("kind") == "sessions":
+        from checks import c11
+        yield from c11.session_shrink(case)
+        return
     ops = case["ops"]
     for i in range(len(ops) - 1, -1, -1):
         if len(ops) > 1:
